@@ -416,7 +416,7 @@ func (p *parser) parseASCII(minLength, maxLength int) (item ast.ItemNode, ok boo
 	for _, t := range tokens {
 		switch t.typ {
 		case tokenTypeQuotedString:
-			val, _ := strconv.Unquote(t.val)
+			val := t.val[1 : len(t.val)-1] // the characters between the double quotes
 			for _, r := range val {
 				if r > unicode.MaxASCII {
 					val = ""
